@@ -44,7 +44,7 @@ def _run(chunk):
                 signal.setitimer(signal.ITIMER_VIRTUAL, 0)
         except CaseTimeout:
             out.append({"evals": 1, "key": None, "nontrivial": False, "violations": [
-                {"key": f"{str(case[1]) if len(case) > 1 and isinstance(case[1], str) else ''}:no-termination-within-{CASE_TIMEOUT}s-cpu",
+                {"key": f"{next((x for x in case[:2] if isinstance(x, str) and x not in ('rank', 'score')), '')}:no-termination-within-{CASE_TIMEOUT}s-cpu",
                  "what": f"run did not terminate within {CASE_TIMEOUT} CPU seconds (bounded evidence of non-termination) on {case!r}"[:600],
                  "input": repr(case)[:600]}]})
         except Exception as e:  # harness error, never a verdict
@@ -52,7 +52,7 @@ def _run(chunk):
     return out
 
 
-def run(modname, cases, bound, rule, budget_s=None, chunk=12, assumptions=()):
+def run(modname, cases, bound, rule, budget_s=None, chunk=12, assumptions=(), keep=()):
     """cases: iterable of picklable case descriptors. check_case(case) returns
     dict(evals=int, key=canonical key or None, nontrivial=bool, violations=[...], sample=optional)"""
     t0 = time.time()
@@ -64,6 +64,7 @@ def run(modname, cases, bound, rule, budget_s=None, chunk=12, assumptions=()):
     samples = []
     errors = []
     truncated = False
+    kept = {k: [] for k in keep}
     with mp.get_context("fork").Pool(JOBS, initializer=_init, initargs=(modname,)) as pool:
         for res in pool.imap_unordered(_run, chunks):
             for r in res:
@@ -71,6 +72,9 @@ def run(modname, cases, bound, rule, budget_s=None, chunk=12, assumptions=()):
                     errors.append(r)
                     continue
                 evals += r.get("evals", 1)
+                for k in keep:
+                    if k in r:
+                        kept[k].append((str(r.get("key")), r[k]))
                 if r.get("nontrivial") and r.get("key") is not None:
                     keys.add(r["key"])
                 for v in r.get("violations", []):
@@ -91,6 +95,6 @@ def run(modname, cases, bound, rule, budget_s=None, chunk=12, assumptions=()):
     return {
         "evaluations": evals, "distinct_nontrivial": len(keys), "rule": rule, "bound": bound,
         "samples": samples, "violations": list(seen.values()), "cases": len(cases),
-        "exhaustive": not truncated, "bounded_wall_s": round(time.time() - t0, 1),
+        "exhaustive": not truncated, "bounded_wall_s": round(time.time() - t0, 1), "kept": kept,
         "assumptions": list(assumptions) + ["bounded stand-in: evidence only up to the stated scope, never counted as proved"],
     }
